@@ -27,7 +27,7 @@ def FLOORS(tier):
     q = tier == "quick"
     f = {"anc>=2": 200 if q else 5000, "reused-pair": 50 if q else 1000,
          "oracleA-checked": 600 if q else 20000, "oracleB-certificates": 150 if q else 3000,
-         "permuted-mapping": 100, "convert_solution-calls": 1000, "typed-coefficients": 60}
+         "permuted-mapping": 100, "convert_solution-calls": 1000, "typed-coefficients": 60, "second-look-after-edit": 40}
     for c in CLASSES:
         for fo in FORMS:
             f["cell:%s:%s" % (c, fo)] = 10 if q else 300
@@ -207,6 +207,26 @@ def check_certificate(ctx, M, P, cert, want, lam_sound, w):
 def case(ctx, rng, idx):
     big = rng.random() < 0.25
     cname, M, permuted = make_model(rng, big)
+    ok = check_once(ctx, rng, cname, M, permuted, big)
+    if ok and not big and rng.random() < 0.3:
+        # second look: the same object is edited in place and converted again -- nothing of the first conversion may linger
+        ks = [k for k in M if len(k) >= 2]
+        try:
+            if ks and rng.random() < 0.5:
+                M[rng.choice(ks)] *= rng.choice([-2, 0.5, 3])
+            else:
+                labs = list(M.mapping)
+                M[tuple(rng.sample(labs, min(len(labs), rng.randint(3, 4))))] += rng.choice(gen.DYADIC)
+        except KeyError:
+            return
+        M.refresh()
+        if M.num_binary_variables == 0:
+            return
+        ctx.cat("second-look-after-edit")
+        check_once(ctx, rng, cname, M, False, False)
+
+
+def check_once(ctx, rng, cname, M, permuted, big):
     form = rng.choice(FORMS)
     deg = rng.choice([2, 2, 3, 4])
     want = 2 if form in ("qubo", "quso") else deg
@@ -216,15 +236,19 @@ def case(ctx, rng, idx):
         vs = list(M.mapping)
         cand = vs + ["nope", 9999]
         pairs = {tuple(rng.sample(cand, 2)) for _ in range(rng.randint(1, 3))}
+        if rng.random() < 0.3:
+            pairs |= {(b, a) for a, b in list(pairs)[:1]}        # the same pair in both orientations is a legitimate hint set
+        if rng.random() < 0.2:
+            pairs = list(pairs) + list(pairs)[:1]                   # any iterable of pairs, repeats included
     w = {"class": cname, "terms": dict(M), "mapping": M.mapping, "form": form, "deg": deg,
          "lam": lk, "lam_value": None if callable(lam) else lam, "pairs": pairs}
     snap = (dict(M), M.mapping)
     ok, D = ctx.call("to_" + form, oracles.call_form, M, form, deg, lam, pairs, _w=w)
     if not ok:
-        return
+        return False
     if (dict(M), M.mapping) != snap:
         ctx.violation("model-mutated-by-to_" + form, "to_%s changed the model" % form, w)
-        return
+        return False
     ctx.cat("cell:%s:%s" % (cname, form))
     ctx.cat("lam:" + lk)
     if permuted:
@@ -236,7 +260,7 @@ def case(ctx, rng, idx):
     if not big:
         r = oracles.reduction_oracle(ctx, M, D, form, deg, sound, w, rng=rng)
         if r is None:
-            return
+            return False
         if not r["skipped"]:
             ctx.count("oracleA-checked")
         nanc = r["anc"]
@@ -244,13 +268,13 @@ def case(ctx, rng, idx):
     bform = "qubo" if form in ("qubo", "quso") else "pubo"
     ok, P = ctx.call("to_" + bform, oracles.call_form, M, bform, deg, lam, pairs, _w=w)
     if not ok:
-        return
+        return False
     cert = getattr(P, "_verif_reduction_certificate", None)
     if cert is None:
         ctx.cat("no-certificate")        # hook absent: Oracle B inconclusive (floor catches it)
     else:
         if not check_certificate(ctx, M, P, cert, want, sound, w):
-            return
+            return False
         if nanc is None:
             nanc = len({s[2] for t in cert["terms"] for s in t["subs"]})
         if form != bform:
@@ -266,13 +290,14 @@ def case(ctx, rng, idx):
         n = M.num_binary_variables
         if oracles.true_degree(D) > want:
             ctx.violation("degree-too-high", "degree %d > %d" % (oracles.true_degree(D), want), w)
-            return
+            return False
         if type(D).__name__ != oracles.FORM_TYPE[form]:
             ctx.violation("form-type", "to_%s returned %s" % (form, type(D).__name__), w)
-            return
+            return False
     if nanc:
         ctx.nontrivial((cname, sorted(dict(M).items(), key=repr), sorted(M.mapping.items(), key=repr), form, deg, lk, repr(pairs)))
         if nanc >= 2:
             ctx.cat("anc>=2")
     ctx.sample({"class": cname, "terms": dict(M), "form": form, "deg": deg, "lam": lk, "ancillas": nanc,
                 "form_terms": len(D)}, limit=3)
+    return True
